@@ -448,7 +448,7 @@ def _is_closure(fd):
 
 def _loops_only(fd):
     """straight-line body with loops (no branching): the bounded-loop case inline_expr unrolls"""
-    return not any(isinstance(n, (ast.If, ast.While, ast.Try, ast.With)) for n in ast.walk(fd))
+    return not any(isinstance(n, (ast.If, ast.Try, ast.With)) for n in ast.walk(fd))
 
 
 def _forkable(fd):
@@ -748,6 +748,9 @@ class SymExec(object):
             if b[0] in ('tuple', 'list') and i[0] == 'const' and isinstance(i[1], int) and not isinstance(i[1], bool) \
                     and -len(b[1]) <= i[1] < len(b[1]) and not any(x[0] == 'star' for x in b[1]):
                 return b[1][i[1]]       # element of a display
+            if b[0] in ('tuple', 'list') and i[0] == 'slice' and i[3] is None and not any(x[0] == 'star' for x in b[1]) \
+                    and all(z is None or (z[0] == 'const' and type(z[1]) is int) for z in (i[1], i[2])) and getattr(self, '_in_helper', 0):
+                return (b[0], tuple(b[1][slice(i[1][1] if i[1] else None, i[2][1] if i[2] else None)]))      # a piece of a display
             if b[0] == 'dict' and b[1] and all(k is not None and k[0] == 'const' for k, _ in b[1]):
                 if i[0] == 'const':
                     for k_, v_ in b[1]:
@@ -829,6 +832,9 @@ class SymExec(object):
                 return ('ifexp', args[0][2], ('const', 0), ('const', 1))      # int(not b) is 0 if b else 1
             if f == ('name', 'len') and len(args) == 1 and not kws and args[0][0] == 'const' and isinstance(args[0][1], str):
                 return ('const', len(args[0][1]))       # the length of a constant text
+            if f == ('name', 'len') and len(args) == 1 and not kws and args[0][0] in ('list', 'tuple') and not any(x_[0] == 'star' for x_ in args[0][1]) \
+                    and getattr(self, '_in_helper', 0):
+                return ('const', len(args[0][1]))       # ... of a display built up inside a helper that is being evaluated
             if f == ('name', 'Unification') and args:
                 # the matcher takes its patterns as text or as parsed categories: the same matcher either way
                 args = [a_[2][0] if (a_[0] == 'call' and a_[1] == ('attr', ('name', 'Category'), 'parse') and len(a_[2]) == 1
@@ -918,7 +924,7 @@ class SymExec(object):
                 if ft is not None:
                     return ft
             if f[0] == 'attr' and f[2] in ('append', 'extend') and isinstance(n.func, ast.Attribute) and isinstance(n.func.value, ast.Name) \
-                    and f[1][0] == 'list' and len(args) == 1 and not kws and not self._guard:
+                    and f[1][0] == 'list' and len(args) == 1 and not kws and len(self._guard) <= getattr(self, '_guard_base', 0):
                 # a list display bound to a local keeps growing: its later value is the display with the new element(s)
                 if f[2] == 'append':
                     st.env[n.func.value.id] = ('list', f[1][1] + (args[0],))
@@ -996,6 +1002,8 @@ class SymExec(object):
                 op_ = _CMPOPS.get(type(n.ops[0]), '?')
                 if l_[0] == 'const' and r_[0] == 'const' and op_ in ('==', '!=', 'is', 'is not') and type(l_[1]) == type(r_[1]):
                     return ('const', (l_[1] == r_[1]) == (op_ in ('==', 'is')))
+                if l_[0] == 'const' and r_[0] == 'const' and op_ in ('<', '<=', '>', '>=') and type(l_[1]) is int and type(r_[1]) is int:
+                    return ('const', {'<': l_[1] < r_[1], '<=': l_[1] <= r_[1], '>': l_[1] > r_[1], '>=': l_[1] >= r_[1]}[op_])
                 if l_[0] == 'const' and op_ in ('in', 'not in') and r_[0] in ('tuple', 'list', 'set') and all(x[0] == 'const' for x in r_[1]):
                     return ('const', (l_ in r_[1]) == (op_ == 'in'))
                 if op_ in ('is', 'is not') and ('const', None) in (l_, r_):
@@ -1509,6 +1517,21 @@ class SymExec(object):
                 if isinstance(s_, tuple) and s_ and s_[0] == '__bind__':
                     self.bind(s_[1], s_[2], sub, s_[3])
                     continue
+                if isinstance(s_, ast.While) and not s_.orelse and not any(isinstance(x, (ast.Break, ast.Continue, ast.Return)) for x in ast.walk(s_)):
+                    # a loop whose test is decided by what is known (the length of a display against a constant argument):
+                    # run it as often as the test says, at most a few times
+                    rounds = getattr(s_, '_pe_rounds', {})
+                    k_ = rounds.get(id(sub), 0)
+                    c_ = self.ev(s_.test, sub)
+                    if c_[0] != 'const' or k_ > 8:
+                        return UNSUPPORTED
+                    if c_[1]:
+                        rounds[id(sub)] = k_ + 1
+                        s_._pe_rounds = rounds
+                        stmts = list(s_.body) + [s_] + stmts
+                    else:
+                        rounds.pop(id(sub), None)
+                    continue
                 if isinstance(s_, ast.For) and not s_.orelse and not any(isinstance(x, (ast.Break, ast.Continue, ast.Return)) for x in ast.walk(s_)):
                     items = self.iter_items(self.ev(s_.iter, sub), sub)
                     if items is None:
@@ -1525,11 +1548,13 @@ class SymExec(object):
         mark = len(st.events)
         saved_base = getattr(self, '_guard_base', 0)
         self._guard_base = len(self._guard)      # what is unconditional inside the helper is so relative to its call
+        self._in_helper = getattr(self, '_in_helper', 0) + 1
         try:
             r = body(fd.body)
         finally:
             self._stack.pop()
             self._guard_base = saved_base
+            self._in_helper -= 1
         if r is UNSUPPORTED or r is None or _contains(r, UNSUPPORTED):
             del st.events[mark:]
             return None
